@@ -350,6 +350,39 @@ def gen_ties(kind, idx):
             'fifo': [3, 1, 4, 8, 5, 2, 7, 6], 'expect_counts': {str(t): 1 for t in range(1, 9)}}
 
 
+def gen_tie_resched(rng, kind, idx):
+    """ties AFTER re-scheduling: one block of schedulings (the clock thread cannot run meanwhile) in which pending tasks
+    are scheduled again -- second sched_abs / sched call, Routine play / pause+resume on the beat grid -- for times
+    that other tasks were scheduled for in between.  Among tasks with the same time the wake-up order must be the order
+    of their LAST scheduling (a re-scheduling replaces the pending one and counts as new)."""
+    n = rng.randint(4, 7)
+    tasks, ops, played = {}, [], set()
+    routines = set(t for t in range(1, n + 1) if kind == 'tempo' and rng.random() < 0.5)
+    for t in range(1, n + 1):
+        tasks[str(t)] = {'routine': 0} if t in routines else {'results': [['none']]}
+    for _ in range(rng.randint(8, 16)):
+        t = rng.randint(1, n)
+        if t in routines:
+            if t not in played:
+                ops.append(['rplay', t, 1]); played.add(t)
+            elif rng.random() < 0.7:
+                ops += [['rpause', t], ['rresume', t, 1]]
+            else:
+                ops.append(['abs', t, 64, 64])          # moved off the grid, far: may be moved back by a resume? no: stays
+                routines.discard(t)
+        elif kind == 'app':
+            ops.append(['sched', t, rng.choice([6, 6, 6, 7, 12]), 64])
+        else:
+            ops.append(['abs', t, rng.choice([6, 6, 6, 7, 12]), 64])
+    for t in range(1, n + 1):                            # everybody is scheduled at least once
+        if not any(o[1] == t for o in ops):
+            ops.append(['rplay', t, 1] if t in routines else (['sched', t, 6, 64] if kind == 'app' else ['abs', t, 6, 64]))
+    wc = {str(t): 1 for t in range(1, n + 1)}
+    return {'name': '%s-tie-resched-%d' % (kind, idx), 'clock': kind, 'index': idx, 'tempo': [4, 1], 'tasks': tasks,
+            'threads': [[['locked', ops]]], 'final': 'clear', 'wait_counts': wc, 'before_final': 6.0, 'after_final': 0.02,
+            'tie_order': True, 'expect_counts': wc}
+
+
 def gen_two_clocks(kind, idx):
     """the SAME task object scheduled on this clock and on SystemClock: one wake-up on each; a second task scheduled
     twice on this clock (replaced): one wake-up"""
@@ -530,6 +563,10 @@ def program(ctx, rng):
             p1.append(gen_late_parent(kind, idx))
             idx += 1
             p1.append(gen_ties(kind, idx))
+    for kind in ('sys', 'tempo', 'app'):
+        for _ in range(ctx.n(3, 10)):
+            idx += 1
+            p1.append(gen_tie_resched(rng, kind, idx))
     idx += 1
     p1.append(gen_self_stop(idx))
     idx += 1
@@ -676,6 +713,26 @@ def e2e(sc, r):
         if len(l1) > 1 and l1[1] != l1[0] + Fraction(1, 32) / tempo:
             v.append(('resched_relative_to_scheduled', '%s: task 1 returned 1/32 at logical %s (40 ms late): next logical time %s, '
                       'expected %s' % (sc['name'], l1[0], l1[1], l1[0] + Fraction(1, 32) / tempo)))
+    if sc.get('tie_order'):
+        last = {}
+        for i, x in enumerate(r['scheds']):
+            if x[1] is not None and x[2] in ('delta', 'abs', 'play'):
+                last[x[1]] = i
+        first = {}
+        for i, a in enumerate(aw):
+            first.setdefault(a[0], (i, Fraction(*a[2])))
+        groups = {}
+        for tid, (i, lt) in first.items():
+            if tid in last:
+                groups.setdefault(lt, []).append((i, tid))
+        for lt, g in groups.items():
+            woke = [tid for _, tid in sorted(g)]
+            want = sorted(woke, key=lambda t: last[t])
+            if woke != want:
+                v.append(('ready_popped_in_time_then_fifo_order',
+                          '%s: tasks %s all have the time %s; the order of their (last) scheduling was %s but they were awakened in '
+                          'the order %s (schedulings, in order: %s)' % (sc['name'], sorted(woke), lt, want, woke,
+                                                                       [[x[1], x[2], x[3]] for x in r['scheds'] if x[1] is not None])))
     if sc.get('fifo'):
         order = [a[0] for a in aw]
         if len(order) == len(sc['fifo']) and order != sc['fifo']:
@@ -871,6 +928,9 @@ def search(ctx, failures):
         for how in ('raise', 'routine', 'stop'):
             idx += 1
             scs.append(gen_after_raise(kind, how, idx))
+        for _ in range(ctx.n(3, 10)):
+            idx += 1
+            scs.append(gen_tie_resched(rng, kind, idx))
     found, seen = [], set()
     for f in failures:
         sc = f.replay.get('scenario') if isinstance(f.replay, dict) else None
